@@ -130,7 +130,7 @@ impl Check for C18 {
         };
         let (s2, t2) = (pick(&mut rng), pick(&mut rng));
         let g = scn.problems[0].goal.clone();
-        scn.problems.push(ProblemSpec { starts: vec![s2], goal: GoalSpec { target: t2, radius: g.radius, sampler: GoalSampler::Fixed, sampler_seed: 0, comp: None, harness_metric: g.harness_metric }, world: 0 , space: None});
+        scn.problems.push(ProblemSpec { starts: vec![s2], goal: GoalSpec { target: t2, radius: g.radius, sampler: GoalSampler::Fixed, sampler_seed: 0, comp: None, harness_metric: g.harness_metric, cycle: vec![] }, world: 0 , space: None});
         let big = || CallSpec::Solve { timeout_ns: 1_000_000_000_000, stalls: vec![] };
         scn.calls = match rng.below(6) {
             0 => vec![CallSpec::Setup { problem: 0 }, gen::construct_call(n), big()],
